@@ -20,14 +20,19 @@ def _load(prop):
     return list(m.V)
 
 
-def _keys(prop, root, overlay):
+def _keys(prop, root, overlay, _base=None):
     mod = importlib.import_module('sa.rules.' + prop.lower())
     repo = Repo(root, overlay)
-    out = set()
+    out, err = set(), None
     for r in mod.rules(repo, 'quick'):
-        r.check_floor()
         for f in r.findings:
             out.add((f.rule, f.key))
+        try:
+            r.check_floor()
+        except AnalysisError as e:
+            err = err or e
+    if err is not None and not (out - (_base or set())):
+        raise err                 # like the CLI: findings first; a lost anchor without any new finding is the fail-closed outcome
     return out
 
 
@@ -48,7 +53,7 @@ def _one(args):
     except SyntaxError as e:
         return (name, 'broken-variant', 'variant does not parse: %s' % e)
     try:
-        keys = _keys(prop, root, {rel: edited})
+        keys = _keys(prop, root, {rel: edited}, base)
     except AnalysisError as e:
         # an anchor that vanished under a must-fire edit counts as detected-by-fail-closed, but is reported as such
         if expect is not None:
@@ -193,7 +198,7 @@ def _one_seed(args):
     except (OSError, ValueError, KeyError) as e:
         return ('seed:' + sid, 'skipped', 'patch does not apply to the current tree: %s' % str(e)[:80])
     try:
-        keys = _keys(prop, root, overlay)
+        keys = _keys(prop, root, overlay, base)
     except AnalysisError as e:
         return ('seed:' + sid, 'fired', 'ANALYSIS-ERROR(fail-closed): %s' % str(e)[:100])
     new_f = [k for k in keys if k not in base]
